@@ -11,6 +11,18 @@ REPO = os.environ.get("PYVC_REPO", "/repo")
 NATIVE_PY = "/venv/bin/python"
 
 PLANS = {
+    "C05": {
+        "level": "other",
+        "sidecars": ["bonds", "debump", "quatfit"],
+        "extras": [{"name": "c04_torsion_rank_table", "module": "tables.x_checks", "func": "c04_torsion_ranks", "python": "vt"},
+                   {"name": "c05_geometry", "module": "bounded.c05_geometry", "func": "run", "python": "venv"}],
+        "explanation": "Contracts decide only the placement mechanism: the fitted placement is a rigid motion of the "
+                       "template (find_coordinates/qtransform), torsion moves keep the distance of every moved atom to the "
+                       "axis atoms (set_dihedral_angle), peptide partners exist only across real peptide bonds "
+                       "(update_bonds), the moved set of every template dihedral is a bonded group (X table). That every "
+                       "added atom of every run ends at template geometry is not decidable by contracts (input distortion, "
+                       "optimiser choices); a bounded numeric floor measures 2 682 added atoms on shipped fragments.",
+    },
     "C04": {
         "level": "proof",
         "sidecars": ["debump", "driver", "quatfit"],
